@@ -720,7 +720,11 @@ def load_corpus():
     out = []
     if d.exists():
         for p in sorted(d.glob('*.json')):
-            out.append(json.loads(p.read_text()))
+            j = json.loads(p.read_text())
+            if j.get('out_of_scope'):
+                continue            # recorded observations outside the property's quantifier: never run by default
+            j.pop('note', None)
+            out.append(j)
     return out
 
 
